@@ -542,6 +542,29 @@ def _eq_grammar(repo, rep):
         return lo == 0 and hi >= 65535 and len(b) == 1 and \
             b[0][0] is C.IN and any(o is C.CATEGORY and "SPACE" in str(a)
                                     for o, a in b[0][1])
+    # a value-less attribute is one that is *not* followed by white space
+    # and '=': the look-ahead's class must be white space -- in a raw string
+    # '[ \\n\\t\\r]' is the letters n, t, r and the backslash
+    sv = find(list(rx.parse(pat, rc.flags)), gi.get("simple_value"))
+    okl = False
+    detail_l = str(sv)[:120]
+    if sv and sv[0][0] is C.ASSERT_NOT:
+        inner = list(sv[0][1][1])
+        if len(inner) == 2 and inner[0][0] is C.MAX_REPEAT and \
+                inner[1] == (C.LITERAL, ord("=")):
+            b = list(inner[0][1][2])
+            if len(b) == 1 and b[0][0] is C.IN:
+                cs = rx.in_set(b[0][1])
+                ws = rx.in_set([(C.CATEGORY, C.CATEGORY_SPACE)])
+                need = rx.CharSet.of(" \n\t\r")
+                okl = (cs <= ws) and (need <= cs)
+                detail_l = "look-ahead class %s" % cs
+    rep.check(okl, "R03.3", PARSER + ".match_single_attribute", "the "
+              "look-ahead that tells a value-less attribute from 'name =' "
+              "skips white space only (and at least blank, newline, tab, "
+              "CR): an attribute name is never cut because of the letters "
+              "that follow it", construct="simple-value-lookahead",
+              detail=detail_l)
     ok = body is not None and len(body) == 3 and spaces(body[0]) and \
         body[1] == (C.LITERAL, ord("=")) and spaces(body[2])
     rep.check(ok, "R03.3", PARSER + ".match_single_attribute",
